@@ -28,20 +28,30 @@ Variables (args val res rstate : Type).
 Variable const : Z -> val.
 Variable argval : Z -> args -> Z -> val.
 Variable accval : Z -> args -> Z -> option val -> val.
+Variable mval : Z -> args -> val.
+Variable key_eqb : args -> args -> bool.
 Variable body : Z -> args -> list (option val) -> @rsrc rstate -> res.
 Variable rng_next : Z -> args -> @rsrc rstate -> rstate -> rstate.
+Hypothesis key_sound : forall a b, key_eqb a b = true -> a = b.
+Hypothesis key_refl : forall a, key_eqb a a = true.
 
-Lemma gen_cache_inv : forall r0 h g v,
-  cache (run args val res rstate sigs const argval accval body rng_next r0 h) g = Some v -> v = const g.
-Proof. exact (cache_inv args val res rstate sigs const argval accval body rng_next gen_sigs_ok). Qed.
+Lemma gen_cache_inv : forall r0 h,
+  (forall g v, cache (run args val res rstate sigs const argval accval mval key_eqb body rng_next r0 h) g = Some v ->
+               v = const g) /\
+  (forall g k v, memo (run args val res rstate sigs const argval accval mval key_eqb body rng_next r0 h) g k = Some v ->
+                 v = mval g k).
+Proof. exact (cache_inv args val res rstate sigs const argval accval mval key_eqb body rng_next key_sound gen_sigs_ok). Qed.
 
 Lemma gen_history_independent : forall r0 r0' h c,
-  result_after args val res rstate sigs const argval accval body rng_next r0 h c =
-  result_after args val res rstate sigs const argval accval body rng_next r0' [] c.
-Proof. exact (history_independent args val res rstate sigs const argval accval body rng_next gen_sigs_ok). Qed.
+  result_after args val res rstate sigs const argval accval mval key_eqb body rng_next r0 h c =
+  result_after args val res rstate sigs const argval accval mval key_eqb body rng_next r0' [] c.
+Proof.
+  exact (history_independent args val res rstate sigs const argval accval mval key_eqb body rng_next key_sound key_refl
+                             gen_sigs_ok).
+Qed.
 
-Lemma gen_rng_leak_free : forall (w : world val rstate) r t c,
-  fst (step args val res rstate sigs const argval accval body rng_next w c) =
-  fst (step args val res rstate sigs const argval accval body rng_next (mk_world (cache w) r t) c).
-Proof. exact (rng_leak_free args val res rstate sigs const argval accval body rng_next gen_sigs_ok). Qed.
+Lemma gen_rng_leak_free : forall (w : world args val rstate) r t c,
+  fst (step args val res rstate sigs const argval accval mval key_eqb body rng_next w c) =
+  fst (step args val res rstate sigs const argval accval mval key_eqb body rng_next (mk_world (cache w) (memo w) r t) c).
+Proof. exact (rng_leak_free args val res rstate sigs const argval accval mval key_eqb body rng_next gen_sigs_ok). Qed.
 End Inst.
